@@ -522,9 +522,42 @@ theorem chordRun_spec (start end_ : Int) (hse : start < end_) :
               · rw [hE2 i (by omega) hlt, chordAt_cons_le (by omega)]
 
 
+theorem chordLe_iff (a b : TextAnn) : chordLe a b = true ↔ ChordOrd a b := by
+  simp only [chordLe, ChordOrd, Bool.or_eq_true, Bool.and_eq_true, decide_eq_true_eq, beq_iff_eq]
+
+theorem chordLe_trans (a b c : TextAnn) (h1 : chordLe a b = true) (h2 : chordLe b c = true) :
+    chordLe a c = true := by
+  rw [chordLe_iff] at h1 h2 ⊢
+  unfold ChordOrd at h1 h2 ⊢
+  rcases h1 with h1 | ⟨h1, h1'⟩ <;> rcases h2 with h2 | ⟨h2, h2'⟩
+  all_goals first
+    | (left; omega)
+    | (right; exact ⟨by omega, Rat.le_trans h1' h2'⟩)
+
+theorem chordLe_total (a b : TextAnn) : (chordLe a b || chordLe b a) = true := by
+  rw [Bool.or_eq_true, chordLe_iff, chordLe_iff]
+  unfold ChordOrd
+  by_cases h1 : a.qstep < b.qstep
+  · exact Or.inl (Or.inl h1)
+  · by_cases h2 : b.qstep < a.qstep
+    · exact Or.inr (Or.inl h2)
+    · rcases Rat.le_total (a := a.time) (b := b.time) with h | h
+      · exact Or.inl (Or.inr ⟨by omega, h⟩)
+      · exact Or.inr (Or.inr ⟨by omega, h⟩)
+
+/-- the chord annotations are processed in `(step, time)` order -/
+theorem chordAnns_sorted (s : NoteSeq) : (chordAnns s).Pairwise ChordOrd := by
+  have := List.pairwise_mergeSort (le := chordLe) chordLe_trans chordLe_total
+    (s.texts.filter (fun a => a.kind == Gen.CHORD_SYMBOL))
+  exact List.Pairwise.imp (fun h => (chordLe_iff _ _).mp h) this
+
+theorem chordAnns_pairwise (s : NoteSeq) : (chordAnns s).Pairwise (fun a b => a.qstep ≤ b.qstep) := by
+  apply List.Pairwise.imp _ (chordAnns_sorted s)
+  intro a b h; rcases h with h | h <;> omega
+
 theorem mem_chordAnns {s : NoteSeq} {a : TextAnn} :
     a ∈ chordAnns s ↔ a ∈ s.texts ∧ a.kind = Gen.CHORD_SYMBOL := by
-  simp [chordAnns, sortByInt, List.mem_mergeSort, List.mem_filter]
+  simp [chordAnns, List.mem_mergeSort, List.mem_filter]
 
 theorem chordConflict_top {s : NoteSeq} {start end_ : Int} :
     ChordConflict start end_ none Gen.NO_CHORD (chordAnns s) ↔ ChordsCoincident s start end_ := by
@@ -551,7 +584,7 @@ theorem chords_top (s : NoteSeq) (start end_ spb : Int) (hspb : stepsPerBar s = 
     | ok r => obtain ⟨ps, pf, ev⟩ := r; rfl
   rw [hrun, ← chordConflict_top]
   rcases chordRun_spec start end_ hse (chordAnns s) none Gen.NO_CHORD []
-      (sortByInt_pairwise _ _) (by intro p hp; exact absurd hp (by simp)) (by simp [chordStartIndex]) with
+      (chordAnns_pairwise s) (by intro p hp; exact absurd hp (by simp)) (by simp [chordStartIndex]) with
     ⟨hc, he⟩ | ⟨hc, E, hE, hEl, _, hE2⟩
   · left; exact ⟨hc, by rw [he]⟩
   · right
@@ -1470,20 +1503,46 @@ theorem melLoop_spec (fd ip : Bool) (gap mstart : Int) :
           exact ⟨A'', k'', K0'', by rw [hKeq]; simp, hres, r1, r2, r3, r4⟩
 
 
+theorem melLe_iff (a b : Note) : melLe a b = true ↔ MelOrd a b := by
+  simp only [melLe, MelOrd, Bool.or_eq_true, Bool.and_eq_true, decide_eq_true_eq, beq_iff_eq]
+
 theorem melLe_trans (a b c : Note) (h1 : melLe a b = true) (h2 : melLe b c = true) : melLe a c = true := by
-  simp only [melLe, Bool.or_eq_true, Bool.and_eq_true, decide_eq_true_eq, beq_iff_eq] at h1 h2 ⊢
-  omega
+  rw [melLe_iff] at h1 h2 ⊢
+  unfold MelOrd at h1 h2 ⊢
+  rcases h1 with h1 | ⟨h1, h1' | ⟨h1', h1''⟩⟩ <;> rcases h2 with h2 | ⟨h2, h2' | ⟨h2', h2''⟩⟩
+  all_goals first
+    | (left; omega)
+    | (right; refine ⟨by omega, Or.inl (by omega)⟩)
+    | (right; exact ⟨by omega, Or.inr ⟨by omega, Rat.le_trans h1'' h2''⟩⟩)
 
 theorem melLe_total (a b : Note) : (melLe a b || melLe b a) = true := by
-  simp only [melLe, Bool.or_eq_true, Bool.and_eq_true, decide_eq_true_eq, beq_iff_eq]
-  omega
+  rw [Bool.or_eq_true, melLe_iff, melLe_iff]
+  unfold MelOrd
+  rcases Rat.le_total (a := a.start) (b := b.start) with h | h
+  · by_cases h1 : a.qs < b.qs
+    · exact Or.inl (Or.inl h1)
+    · by_cases h2 : b.qs < a.qs
+      · exact Or.inr (Or.inl h2)
+      · by_cases h3 : b.pitch < a.pitch
+        · exact Or.inl (Or.inr ⟨by omega, Or.inl h3⟩)
+        · by_cases h4 : a.pitch < b.pitch
+          · exact Or.inr (Or.inr ⟨by omega, Or.inl h4⟩)
+          · exact Or.inl (Or.inr ⟨by omega, Or.inr ⟨by omega, h⟩⟩)
+  · by_cases h1 : a.qs < b.qs
+    · exact Or.inl (Or.inl h1)
+    · by_cases h2 : b.qs < a.qs
+      · exact Or.inr (Or.inl h2)
+      · by_cases h3 : b.pitch < a.pitch
+        · exact Or.inl (Or.inr ⟨by omega, Or.inl h3⟩)
+        · by_cases h4 : a.pitch < b.pitch
+          · exact Or.inr (Or.inr ⟨by omega, Or.inl h4⟩)
+          · exact Or.inr (Or.inr ⟨by omega, Or.inr ⟨by omega, h⟩⟩)
 
 theorem melSorted (l : List Note) : (l.mergeSort melLe).Pairwise MelOrd := by
   have := List.pairwise_mergeSort (le := melLe) melLe_trans melLe_total l
   apply List.Pairwise.imp _ this
   intro a b h
-  simp only [melLe, Bool.or_eq_true, Bool.and_eq_true, decide_eq_true_eq, beq_iff_eq] at h
-  exact h
+  exact (melLe_iff a b).mp h
 
 theorem getLast?_noteTail (A : List Int) (p : Int) (m : Nat) :
     (A ++ noteTail p m).getLast? = some Gen.MELODY_NOTE_OFF := by
